@@ -34,6 +34,10 @@ def plan(tier, seed):
 
 def gen_case(rng, depth):
     regs, vars_, locs = gen.gen_decls(rng)
+    # some variables with an explicit byte order
+    for decl in vars_ + locs:
+        if rng.random() < 0.15:
+            decl[1] = rng.choice(gen.ORDERED_FMTS)
     places = gen.places_of(regs, vars_, locs)
     style = rng.random()
     if style < 0.35:
